@@ -552,6 +552,44 @@ def _contraction(prog, fn):
   return items
 
 
+def _pairwise_to_index(st, seq):
+  """for p, c in zip(seq[:-1], seq[1:]): B   is read as
+  for i in range(1, len(seq)): B[p := seq[i - 1], c := seq[i]]
+  (consecutive pairs, in order); anything else is returned unchanged"""
+  import copy
+  if not (isinstance(st, ast.For) and isinstance(st.iter, ast.Call) and
+          dotted(st.iter.func) == 'zip' and len(st.iter.args) == 2 and
+          not st.iter.keywords and isinstance(st.target, ast.Tuple) and
+          len(st.target.elts) == 2 and all(
+              isinstance(e, ast.Name) for e in st.target.elts)):
+    return st
+  a, b = [norm_text(x).replace(' ', '') for x in st.iter.args]
+  if (a, b) != ('%s[:-1]' % seq, '%s[1:]' % seq):
+    return st
+  p_, c_ = [e.id for e in st.target.elts]
+  if any(isinstance(n, ast.Name) and n.id in (p_, c_, 'i') and isinstance(
+      n.ctx, (ast.Store, ast.Del)) for x in st.body for n in ast.walk(x)):
+    return st
+  prev = ast.parse('%s[i - 1]' % seq, mode='eval').body
+  cur = ast.parse('%s[i]' % seq, mode='eval').body
+
+  class S(ast.NodeTransformer):
+    def visit_Name(self, n):
+      if isinstance(n.ctx, ast.Load) and n.id == p_:
+        return ast.copy_location(copy.deepcopy(prev), n)
+      if isinstance(n.ctx, ast.Load) and n.id == c_:
+        return ast.copy_location(copy.deepcopy(cur), n)
+      return n
+  new = copy.deepcopy(st)
+  new.target = ast.copy_location(ast.Name(id='i', ctx=ast.Store()), st.target)
+  new.iter = ast.copy_location(ast.parse(
+      'range(1, len(%s))' % seq, mode='eval').body, st.iter)
+  new.body = [S().visit(x) for x in new.body]
+  from ..model import canonicalise
+  return ast.fix_missing_locations(canonicalise(ast.Module(
+      body=[new], type_ignores=[])).body[0])
+
+
 def _bucketing(prog, res):
   """H7: _bucketize_consequtive_equal_dims may merge only CONSECUTIVE
   dimensions of equal size (the kernel is row-major over the dimensions in
@@ -582,6 +620,7 @@ def _bucketing(prog, res):
   res.check(not probs, 'H7', fn.qualname + '|list-buckets', fn.loc(),
             'list inputs keep one bucket per dimension, in order',
             '; '.join(probs))
+  tensor_arm = [_pairwise_to_index(st, 'lattice_sizes') for st in tensor_arm]
   tests = [n for st in tensor_arm for n in ast.walk(st)
            if isinstance(n, ast.If)]
   if not tests:
